@@ -1,11 +1,13 @@
 (* C07 — Streaming AEAD is chunking-independent and detects any stream manipulation.
-   Statements only; proofs live in proofs/StreamProofs.v.  The model
-   (model/Stream.v) follows streamingaead/subtle/noncebased/noncebased.go,
+   Statements only; proofs live in proofs/StreamProofs.v, StreamIOProofs.v (short
+   reads), StreamKeyProofs.v (whole reader, keyset, constructors) and
+   StreamKeyExamples.v (inhabiting instances).  The model
+   (model/Stream.v, model/StreamIO.v) follows streamingaead/subtle/noncebased/noncebased.go,
    streamingaead/subtle/aes_{gcm_hkdf,ctr_hmac}.go and streamingaead/decrypt_reader.go.
    The segment cipher (and, for real keys, HKDF / AES-GCM / AES-CTR / HMAC) are
    Section variables; their laws are premises of the theorems. *)
 From Coq Require Import List NArith Bool Arith Lia.
-From Tink Require Import Bytes Stream StreamProofs.
+From Tink Require Import Bytes Stream StreamProofs StreamIO StreamIOProofs StreamKeyProofs StreamKeyExamples.
 Import ListNotations.
 Open Scope nat_scope.
 
@@ -242,9 +244,11 @@ Proof.
 Qed.
 Print Assumptions C07_manipulation_detected.
 
-(* (c) other associated data / other key: the reader derives a session key
-   under which nothing was ever encrypted, so nothing decrypts: the first Read
-   (any size) fails and no byte is returned. *)
+(* (c) segment-layer lemma: a reader under whose session key nothing decrypts
+   fails at its first Read (any size) and returns no byte.  That other
+   associated data / another salt DO lead to such a session key (through HKDF
+   with aad as info) is part of C07_key_manipulation_detected below, where the
+   premise "nothing decrypts" is replaced by laws 2 and 3. *)
 Theorem C07_other_session_key_fails :
   forall (decs : bytes -> bytes -> option bytes) (P : rparams),
     r_off P <= r_ctseg P + 1 -> (forall n c, decs n c = None) ->
@@ -322,3 +326,351 @@ Example C07_premises_inhabited :
 Proof.
   split; [exact toy_len|]. split; [exact toy_dec_enc|]. vm_compute. repeat split; reflexivity.
 Qed.
+
+(* ====================================================================== *)
+(* Stretch round: the whole reader on arbitrary input (header and           *)
+(* associated data included), constructor faults, short-read sources.       *)
+(* key_read = NewDecryptingReader, then Reads of the listed sizes until the  *)
+(* first EOF / error (a constructor error = Failed, no byte delivered);      *)
+(* keyset_read = the same through streamingaead.New(handle) (dr_read).       *)
+(* ====================================================================== *)
+
+(* (c') KEY-LEVEL MANIPULATION.  k is a valid key; ONE stream was encrypted
+   under it: salt, nonce prefix, associated data aad, plaintext p, giving
+   C = header || encode_stream (C07_key_roundtrip).  Laws, all explicit:
+     1. authenticity of the segment AEAD under the session key
+        sk = derive k salt aad: a segment decrypts under (sk, N) only if it
+        is the encryption under the same (sk, N) of the plaintext segment of
+        this stream whose position N encodes;
+     2. for the salt field salt' of the bytes given to the reader and the
+        reader's associated data aad': if derive k salt' aad' <> sk then
+        nothing decrypts under it (nothing was ever encrypted under it);
+     3. HKDF does not collide on these two inputs: (salt', aad') <> (salt, aad)
+        gives another HKDF output (aad is the HKDF info).
+   Then for ANY bytes c' (truncated anywhere, header bytes - length byte, salt,
+   nonce prefix - modified, segments dropped / duplicated / reordered / altered,
+   bytes appended), ANY associated data aad', any I/O behaviour F of the source
+   and ANY Read sizes: nothing panics, the bytes delivered are a prefix of p, a
+   clean EOF is reached only if aad' = aad and c' = C (and then exactly p was
+   delivered), and |segments| + |p| + 1 non-empty Reads always reach EOF or an
+   error.  Laws 2 and 3 are only needed at the (salt', aad') at hand. *)
+Theorem C07_key_manipulation_detected :
+  forall (hkdf : hash -> bytes -> bytes -> bytes -> nat -> bytes)
+         (gcm_seal : bytes -> bytes -> bytes -> bytes) (gcm_open : bytes -> bytes -> bytes -> option bytes)
+         (aes_ctr : bytes -> bytes -> bytes -> bytes) (hmac : hash -> bytes -> bytes -> bytes)
+         (k : skey) (salt prefix aad p : bytes),
+    key_valid k = true -> length salt = k_dk k -> length prefix = nonce_prefix_size ->
+    let seg := k_cseg k - k_tag k in
+    let off := k_foff k + hdr_len k in
+    let ss := segments seg off p in
+    let sk := derive hkdf k salt aad in
+    let C := header k salt prefix ++
+             encode_stream (seg_enc gcm_seal aes_ctr hmac k sk) (k_nonce_size k) prefix seg off p in
+    (N.of_nat (length ss) <= max_segments)%N ->
+    (* law 1 *)
+    (forall N c s, seg_dec gcm_open aes_ctr hmac k sk N c = Some s ->
+       exists i, i < length ss /\
+                 N = nonce_of (k_nonce_size k) prefix (N.of_nat i) (i + 1 =? length ss) /\
+                 s = nth i ss [] /\ c = seg_enc gcm_seal aes_ctr hmac k sk N s) ->
+    forall (c' : bytes) (F : option nat) (aad' : bytes) (sizes : list nat),
+      let salt' := firstn (k_dk k) (skipn 1 c') in
+      (* law 2 *)
+      (derive hkdf k salt' aad' <> sk ->
+       forall N c, seg_dec gcm_open aes_ctr hmac k (derive hkdf k salt' aad') N c = None) ->
+      (* law 3 *)
+      (salt' <> salt \/ aad' <> aad ->
+       hkdf (k_hash k) (k_main k) salt' aad' (k_dlen k) <> hkdf (k_hash k) (k_main k) salt aad (k_dlen k)) ->
+      let '(outb, f) := key_read hkdf gcm_open aes_ctr hmac src read_full k aad' (mkSrc c' F) sizes in
+      f <> Panicked /\ (exists tl, p = outb ++ tl) /\
+      (f = AtEof -> aad' = aad /\ c' = C /\ outb = p) /\
+      (Forall (fun n => 0 < n) sizes -> length ss + length p < length sizes -> f <> Pending).
+Proof.
+  intros hkdf gcm_seal gcm_open aes_ctr hmac k salt prefix aad p Hv Hs Hp seg off ss sk C Hb Hauth c' F aad' sizes salt' H2 H3.
+  exact (key_manipulation_detected hkdf gcm_seal gcm_open aes_ctr hmac k salt prefix aad p Hv Hs Hp Hb Hauth
+           c' F aad' sizes H2 H3).
+Qed.
+Print Assumptions C07_key_manipulation_detected.
+
+(* (c'') THE SAME THROUGH THE KEYSET-LEVEL READER.  keys = the enabled keys of
+   the decrypting keyset in order (all valid); law 4: every key ki of the keyset
+   is k itself or rejects the beginning of c': under the session key ki derives
+   from the salt field of c' and aad', and the two nonces its reader forms for
+   segment 0, no prefix of what follows ki's header in c' decrypts (nothing of
+   this stream was produced under the other keys).  The
+   candidate loop with its replaying unreader never turns a manipulated stream
+   into wrong bytes or a clean EOF. *)
+Theorem C07_keyset_manipulation_detected :
+  forall (hkdf : hash -> bytes -> bytes -> bytes -> nat -> bytes)
+         (gcm_seal : bytes -> bytes -> bytes -> bytes) (gcm_open : bytes -> bytes -> bytes -> option bytes)
+         (aes_ctr : bytes -> bytes -> bytes -> bytes) (hmac : hash -> bytes -> bytes -> bytes)
+         (k : skey) (salt prefix aad p : bytes) (keys : list skey),
+    key_valid k = true -> (forall ki, In ki keys -> key_valid ki = true) ->
+    length salt = k_dk k -> length prefix = nonce_prefix_size ->
+    let seg := k_cseg k - k_tag k in
+    let off := k_foff k + hdr_len k in
+    let ss := segments seg off p in
+    let sk := derive hkdf k salt aad in
+    let C := header k salt prefix ++
+             encode_stream (seg_enc gcm_seal aes_ctr hmac k sk) (k_nonce_size k) prefix seg off p in
+    (N.of_nat (length ss) <= max_segments)%N ->
+    (forall N c s, seg_dec gcm_open aes_ctr hmac k sk N c = Some s ->
+       exists i, i < length ss /\
+                 N = nonce_of (k_nonce_size k) prefix (N.of_nat i) (i + 1 =? length ss) /\
+                 s = nth i ss [] /\ c = seg_enc gcm_seal aes_ctr hmac k sk N s) ->
+    forall (c' : bytes) (F : option nat) (aad' : bytes) (sizes : list nat),
+      let salt' := firstn (k_dk k) (skipn 1 c') in
+      (derive hkdf k salt' aad' <> sk ->
+       forall N c, seg_dec gcm_open aes_ctr hmac k (derive hkdf k salt' aad') N c = None) ->
+      (salt' <> salt \/ aad' <> aad ->
+       hkdf (k_hash k) (k_main k) salt' aad' (k_dlen k) <> hkdf (k_hash k) (k_main k) salt aad (k_dlen k)) ->
+      (* law 4 *)
+      (forall ki, In ki keys ->
+         ki = k \/
+         forall last c, (exists b, skipn (hdr_len ki) c' = c ++ b) ->
+           seg_dec gcm_open aes_ctr hmac ki (derive hkdf ki (firstn (k_dk ki) (skipn 1 c')) aad')
+                   (nonce_of (k_nonce_size ki) (firstn nonce_prefix_size (skipn (1 + k_dk ki) c')) 0%N last) c
+           = None) ->
+      let '(outb, f) := keyset_read hkdf gcm_open aes_ctr hmac keys aad' (mkSrc c' F) sizes in
+      f <> Panicked /\ (exists tl, p = outb ++ tl) /\
+      (f = AtEof -> aad' = aad /\ c' = C /\ outb = p) /\
+      (Forall (fun n => 0 < n) sizes -> length ss + length p < length sizes -> f <> Pending).
+Proof.
+  intros hkdf gcm_seal gcm_open aes_ctr hmac k salt prefix aad p keys Hv Hvs Hs Hp seg off ss sk C Hb Hauth
+         c' F aad' sizes salt' H2 H3 H4.
+  exact (keyset_manipulation_detected hkdf gcm_seal gcm_open aes_ctr hmac k salt prefix aad p keys Hv Hvs Hs Hp Hb
+           Hauth c' F aad' sizes H2 H3 H4).
+Qed.
+Print Assumptions C07_keyset_manipulation_detected.
+
+(* (f') KEYSET-LEVEL ROUND TRIP.  Under the correctness laws of C07_key_roundtrip,
+   for every keyset (all keys valid) that contains k ANYWHERE and whose other
+   keys reject the beginning of the honest stream C (law 4 at C): the
+   keyset-level reader behaves on C exactly as the single-key reader of k - for
+   every sequence of Read sizes it yields p then EOF, never an error. *)
+Theorem C07_keyset_roundtrip :
+  forall (hkdf : hash -> bytes -> bytes -> bytes -> nat -> bytes)
+         (gcm_seal : bytes -> bytes -> bytes -> bytes) (gcm_open : bytes -> bytes -> bytes -> option bytes)
+         (aes_ctr : bytes -> bytes -> bytes -> bytes) (hmac : hash -> bytes -> bytes -> bytes),
+    (forall k n p, length (gcm_seal k n p) = length p + 16) ->
+    (forall k n p, gcm_open k n (gcm_seal k n p) = Some p) ->
+    (forall k iv x, length (aes_ctr k iv x) = length x) ->
+    (forall k iv x, aes_ctr k iv (aes_ctr k iv x) = x) ->
+    (forall h k m, length (hmac h k m) = digest_size h) ->
+  forall (k : skey) (salt prefix aad p : bytes) (keys : list skey),
+    key_valid k = true -> length salt = k_dk k -> length prefix = nonce_prefix_size ->
+    let seg := k_cseg k - k_tag k in
+    let off := k_foff k + hdr_len k in
+    let ss := segments seg off p in
+    let C := header k salt prefix ++
+             encode_stream (seg_enc gcm_seal aes_ctr hmac k (derive hkdf k salt aad)) (k_nonce_size k) prefix seg off p in
+    (N.of_nat (length ss) <= max_segments)%N ->
+    (forall ki, In ki keys -> key_valid ki = true) -> In k keys ->
+    (forall ki, In ki keys ->
+       ki = k \/
+       forall last c, (exists b, skipn (hdr_len ki) C = c ++ b) ->
+         seg_dec gcm_open aes_ctr hmac ki (derive hkdf ki (firstn (k_dk ki) (skipn 1 C)) aad)
+                 (nonce_of (k_nonce_size ki) (firstn nonce_prefix_size (skipn (1 + k_dk ki) C)) 0%N last) c
+         = None) ->
+    forall sizes,
+      keyset_read hkdf gcm_open aes_ctr hmac keys aad (mkSrc C None) sizes =
+      key_read hkdf gcm_open aes_ctr hmac src read_full k aad (mkSrc C None) sizes /\
+      let '(outb, f) := keyset_read hkdf gcm_open aes_ctr hmac keys aad (mkSrc C None) sizes in
+      (f = AtEof \/ f = Pending) /\ (f = AtEof -> outb = p) /\ (exists tl, p = outb ++ tl) /\
+      (Forall (fun n => 0 < n) sizes -> length p + length ss < length sizes -> f = AtEof).
+Proof.
+  intros hkdf gcm_seal gcm_open aes_ctr hmac L1 L2 L3 L4 L5 k salt prefix aad p keys Hv Hs Hp seg off ss C Hb Hvs Hin Hlaw sizes.
+  pose proof (keyset_read_honest hkdf gcm_seal gcm_open aes_ctr hmac L1 L2 L3 L4 L5 k salt prefix aad p Hv Hs Hp Hb
+                keys Hvs Hin Hlaw sizes) as E.
+  split; [exact E|].
+  unfold C, seg, off, ss. fold (key_ciphertext hkdf gcm_seal aes_ctr hmac k salt prefix aad p) in *.
+  rewrite E.
+  exact (key_read_honest hkdf gcm_seal gcm_open aes_ctr hmac L1 L2 L3 L4 L5 k salt prefix aad p Hv Hs Hp Hb sizes).
+Qed.
+Print Assumptions C07_keyset_roundtrip.
+
+(* its premises are inhabited: a segment cipher that is correct for all keys,
+   nonces and segments (toy checksum cipher with a 16-byte tag), keyset
+   [decoy with the parameters of k; k], law 4 checked over every prefix *)
+Example C07_keyset_roundtrip_premises_inhabited :
+  ((forall k n p, length (ex_seal k n p) = length p + 16) /\
+   (forall k n p, hn_open k n (ex_seal k n p) = Some p) /\
+   (forall k iv x, length (ex_ctr k iv x) = length x) /\
+   (forall k iv x, ex_ctr k iv (ex_ctr k iv x) = x) /\
+   (forall h k m, length (hn_hmac h k m) = digest_size h)) /\
+  other_keys_law ex_hkdf hn_open ex_ctr hn_hmac ex_k [ex_k2; ex_k] hn_ct ex_aad /\
+  keyset_read ex_hkdf hn_open ex_ctr hn_hmac [ex_k2; ex_k] ex_aad (mkSrc hn_ct None) [3; 0; 3; 3; 3; 3] = (ex_p, AtEof).
+Proof. split; [exact hn_laws|]. split; [exact hn_keys_law|exact hn_keyset_honest]. Qed.
+
+(* the laws are inhabited (injective key derivation, ideal segment AEAD that
+   accepts exactly what was sealed under the one session key), for the keyset
+   [decoy with the same parameters; k] too; honest and tampered streams
+   (every header field, segments, truncation, appended byte, other associated
+   data) compute as stated: StreamKeyExamples.ex_runs *)
+Example C07_key_laws_inhabited :
+  key_valid ex_k = true /\ length ex_salt = k_dk ex_k /\ length ex_prefix = nonce_prefix_size /\
+  seg_auth_law ex_hkdf ex_seal ex_gopen ex_ctr ex_hmac ex_k ex_salt ex_prefix ex_aad ex_p /\
+  (forall salt' aad', other_key_law ex_hkdf ex_gopen ex_ctr ex_hmac ex_k ex_salt ex_aad salt' aad') /\
+  (forall salt' aad', hkdf_no_collision ex_hkdf ex_k ex_salt ex_aad salt' aad') /\
+  (forall c' aad', other_keys_law ex_hkdf ex_gopen ex_ctr ex_hmac ex_k [ex_k2; ex_k] c' aad') /\
+  let sz := [3; 0; 3; 3; 3; 3] in
+  ex_read ex_aad ex_ct sz = (ex_p, AtEof) /\
+  ex_read ex_aad (flip 0 ex_ct) sz = ([], Failed) /\               (* header length byte *)
+  ex_read ex_aad (flip 16 ex_ct) sz = ([], Failed) /\              (* salt *)
+  ex_read ex_aad (flip 17 ex_ct) sz = ([], Failed) /\              (* nonce prefix *)
+  ex_read ex_aad (flip 61 ex_ct) sz = ([1; 2; 3; 4]%N, Failed) /\  (* last segment *)
+  ex_read [5; 7]%N ex_ct sz = ([], Failed) /\                      (* other associated data *)
+  ex_ksread ex_aad ex_ct sz = (ex_p, AtEof) /\                     (* keyset [decoy; k] *)
+  ex_ksread ex_aad (flip 16 ex_ct) sz = ([], Failed) /\
+  ex_ksread [5; 7]%N ex_ct sz = ([], Failed).
+Proof.
+  destruct ex_laws as (A & B & C & D & E & G). repeat (split; [assumption|]).
+  split; [exact ex_keys_law|]. vm_compute. repeat split; reflexivity.
+Qed.
+
+(* (g) CONSTRUCTOR I/O ERRORS.  NewDecryptingReader succeeds iff the source
+   neither ends nor fails within the first hdr_len bytes (limit = min(data
+   length, failure point)) and the first byte is the header length; in
+   particular a source shorter than the header, or failing inside it, gives a
+   constructor error. *)
+Theorem C07_constructor_reader_iff :
+  forall (hkdf : hash -> bytes -> bytes -> bytes -> nat -> bytes) (k : skey) (aad data : bytes) (F : option nat),
+    fst (new_dec_reader hkdf src read_full k aad (mkSrc data F)) <> None <->
+    hdr_len k <= match F with Some f => Nat.min f (length data) | None => length data end /\
+    firstn 1 data = [(N.of_nat (hdr_len k) mod 256)%N].
+Proof. intros hkdf k aad data F. exact (new_dec_reader_iff hkdf k aad (mkSrc data F)). Qed.
+Print Assumptions C07_constructor_reader_iff.
+
+Theorem C07_constructor_reader_io_error :
+  forall (hkdf : hash -> bytes -> bytes -> bytes -> nat -> bytes) (k : skey) (aad data : bytes) (F : option nat),
+    (length data < hdr_len k \/ exists f, F = Some f /\ f < hdr_len k) ->
+    fst (new_dec_reader hkdf src read_full k aad (mkSrc data F)) = None.
+Proof. exact new_dec_reader_io_error. Qed.
+Print Assumptions C07_constructor_reader_io_error.
+
+(* NewEncryptingWriter succeeds iff the sink takes the whole header; in every
+   case the sink received a prefix of the header only, and on success the
+   session keys are derive k salt aad with salt / nonce prefix taken from the
+   randomness tape and the writer starts at segment 0. *)
+Theorem C07_constructor_writer_iff :
+  forall (hkdf : hash -> bytes -> bytes -> bytes -> nat -> bytes) (k : skey) (tape aad : bytes) (w : sink),
+    let hd := header k (firstn (k_dk k) tape) (firstn nonce_prefix_size (skipn (k_dk k) tape)) in
+    (fst (new_enc_writer hkdf k tape aad w) <> None <->
+     (forall f, sfail w = Some f -> length (sout w) + length hd <= f)) /\
+    (exists n, sout (snd (new_enc_writer hkdf k tape aad w)) = sout w ++ firstn n hd) /\
+    sfail (snd (new_enc_writer hkdf k tape aad w)) = sfail w /\
+    match fst (new_enc_writer hkdf k tape aad w) with
+    | Some (k1, k2, pre, st) =>
+        (k1, k2) = derive hkdf k (firstn (k_dk k) tape) aad /\
+        pre = firstn nonce_prefix_size (skipn (k_dk k) tape) /\
+        st = mkW [] 0%N false (snd (new_enc_writer hkdf k tape aad w)) /\
+        sout (snd (new_enc_writer hkdf k tape aad w)) = sout w ++ hd
+    | None => True
+    end.
+Proof. exact new_enc_writer_iff. Qed.
+Print Assumptions C07_constructor_writer_iff.
+
+(* (d') I/O FAULTS OVER THE WHOLE HISTORY OF ONE KEY.  A sink that cannot take
+   header || segments: the constructor, a Write or Close reports an error. *)
+Theorem C07_key_writer_fault_surfaces :
+  forall (hkdf : hash -> bytes -> bytes -> bytes -> nat -> bytes)
+         (gcm_seal : bytes -> bytes -> bytes -> bytes)
+         (aes_ctr : bytes -> bytes -> bytes -> bytes) (hmac : hash -> bytes -> bytes -> bytes)
+         (k : skey) (salt prefix aad base : bytes) (f : nat) (chunks : list bytes),
+    key_valid k = true -> length salt = k_dk k -> length prefix = nonce_prefix_size ->
+    (N.of_nat (length (segments (k_cseg k - k_tag k) (k_foff k + hdr_len k) (concat chunks))) <= max_segments)%N ->
+    f < length base + hdr_len k +
+        length (encode_stream (seg_enc gcm_seal aes_ctr hmac k (derive hkdf k salt aad)) (k_nonce_size k) prefix
+                              (k_cseg k - k_tag k) (k_foff k + hdr_len k) (concat chunks)) ->
+    match new_enc_writer hkdf k (salt ++ prefix) aad (mkSink base (Some f)) with
+    | (None, _) => True
+    | (Some (k1, k2, pre, w0), _) =>
+      let '(w1, rs) := wwrites (seg_enc gcm_seal aes_ctr hmac k (k1, k2)) (k_wparams k pre) w0 chunks in
+      let '(w2, ok) := wclose (seg_enc gcm_seal aes_ctr hmac k (k1, k2)) (k_wparams k pre) w1 in
+      (exists n, In (WErr n) rs) \/ ok = false
+    end.
+Proof. exact key_writer_fault_surfaces. Qed.
+Print Assumptions C07_key_writer_fault_surfaces.
+
+(* A source that fails persistently at any point (inside the header included):
+   never a clean EOF, for any key, data, associated data and Read sizes. *)
+Theorem C07_key_reader_fault_never_clean_eof :
+  forall (hkdf : hash -> bytes -> bytes -> bytes -> nat -> bytes)
+         (gcm_open : bytes -> bytes -> bytes -> option bytes)
+         (aes_ctr : bytes -> bytes -> bytes -> bytes) (hmac : hash -> bytes -> bytes -> bytes)
+         (k : skey) (aad' c' : bytes) (f : nat) (sizes : list nat),
+    f <= length c' ->
+    snd (key_read hkdf gcm_open aes_ctr hmac src read_full k aad' (mkSrc c' (Some f)) sizes) <> AtEof.
+Proof. exact key_reader_fault_never_clean_eof. Qed.
+Print Assumptions C07_key_reader_fault_never_clean_eof.
+
+Example C07_constructor_faults_compute :
+  fst (new_dec_reader ex_hkdf src read_full ex_k ex_aad (mkSrc (firstn 23 ex_ct) None)) = None /\
+  fst (new_dec_reader ex_hkdf src read_full ex_k ex_aad (mkSrc ex_ct (Some 23))) = None /\
+  fst (new_dec_reader ex_hkdf src read_full ex_k ex_aad (mkSrc ex_ct (Some 24))) <> None /\
+  new_enc_writer ex_hkdf ex_k (ex_salt ++ ex_prefix) ex_aad (mkSink [] (Some 23)) =
+    (None, mkSink (firstn 23 ex_ct) (Some 23)) /\
+  fst (new_enc_writer ex_hkdf ex_k (ex_salt ++ ex_prefix) ex_aad (mkSink [] (Some 24))) <> None.
+Proof. exact ex_constructor_faults. Qed.
+
+(* (h) SHORT-READ SOURCES.  model/StreamIO.v: an io.Reader over the data that
+   hands out at most sz i bytes at its i-th call and, when ewd i is set and
+   that call delivers the last bytes before the end of the data (or before its
+   point of persistent failure), returns io.EOF (the failure) TOGETHER with
+   them; read_full_loop = the loop of io.ReadAtLeast as coded.  For every
+   schedule of positive sizes (any ewd), every source and every length the
+   loop terminates within `want` calls and returns exactly what the atomic
+   read_full returns - so every theorem above, stated over read_full, holds
+   over every such source. *)
+Theorem C07_read_full_loop_is_read_full :
+  forall (sc : sched), (forall i, 0 < sz sc i) ->
+  forall (c : nat) (d : src) (want : nat),
+    exists c', read_full_loop (sread sc) (mkSS c d) want =
+               let '(d', g, k) := read_full d want in Some (mkSS c' d', g, k).
+Proof. exact read_full_loop_eq. Qed.
+Print Assumptions C07_read_full_loop_is_read_full.
+
+(* transfer, stated once for the whole single-key reader and for the
+   nonce-based Reader with any segment decrypter *)
+Theorem C07_short_reads_transfer :
+  forall (hkdf : hash -> bytes -> bytes -> bytes -> nat -> bytes)
+         (gcm_open : bytes -> bytes -> bytes -> option bytes)
+         (aes_ctr : bytes -> bytes -> bytes -> bytes) (hmac : hash -> bytes -> bytes -> bytes)
+         (sc : sched), (forall i, 0 < sz sc i) ->
+  forall (k : skey) (aad : bytes) (c : nat) (d : src) (sizes : list nat),
+    key_read hkdf gcm_open aes_ctr hmac ssrc (read_full_total (sread sc)) k aad (mkSS c d) sizes =
+    key_read hkdf gcm_open aes_ctr hmac src read_full k aad d sizes.
+Proof. exact key_read_short_reads. Qed.
+Print Assumptions C07_short_reads_transfer.
+
+Theorem C07_short_reads_transfer_reader :
+  forall (sc : sched), (forall i, 0 < sz sc i) ->
+  forall (decs : bytes -> bytes -> option bytes) (P : rparams) (c : nat) (d : src) (sizes : list nat)
+         (st0 : rst ssrc) (st0' : rst src),
+    new_reader P (mkSS c d) = Some st0 -> new_reader P d = Some st0' ->
+    drive decs (read_full_total (sread sc)) P sizes st0 [] = drive decs read_full P sizes st0' [].
+Proof. exact drive_short_reads. Qed.
+Print Assumptions C07_short_reads_transfer_reader.
+
+(* the keyset-level unreader (decrypt_reader.go): the same loop over
+   unreader.Read, as coded (replay the buffer, then read the wrapped source and
+   record what it delivers, whatever error comes with it), equals the atomic
+   urfull used by dr_read - for every schedule, replay position and
+   enabled/disabled buffer; su_wf (pos <= len(buf)) is kept by every operation.
+   An unreader that drops bytes arriving together with io.EOF (seeded change
+   C07-unreader-drops-data-with-eof) violates it: StreamIOProofs.uread_drop_differs. *)
+Theorem C07_unreader_read_full_loop_is_urfull :
+  forall (sc : sched), (forall i, 0 < sz sc i) ->
+  forall (u : sureader) (want : nat), su_pos u <= length (su_buf u) ->
+    exists u', read_full_loop (uread sc) u want =
+               (let '(v, g, k) := urfull (su_forget u) want in Some (u', g, k)) /\
+               su_forget u' = fst (fst (urfull (su_forget u) want)) /\
+               su_pos u' <= length (su_buf u').
+Proof. exact uread_full_loop_eq. Qed.
+Print Assumptions C07_unreader_read_full_loop_is_urfull.
+
+Example C07_short_reads_compute :
+  let sc := mkSched (fun i => 1 + i mod 3) (fun _ => true) in
+  (forall i, 0 < sz sc i) /\
+  key_read ex_hkdf ex_gopen ex_ctr ex_hmac ssrc (read_full_total (sread sc)) ex_k ex_aad
+           (mkSS 0 (mkSrc ex_ct None)) [3; 0; 3; 3; 3; 3] = (ex_p, AtEof).
+Proof. exact ex_short_reads. Qed.
